@@ -750,7 +750,8 @@ def gen_c05(rng, t):
         c = Case("c05_hdr%d" % k)
         c.add("DNEW 2 8 %s" % MGR_ALL, "DPROV 8", "DPROV 9", "DPROV 70")
         for w in range(k, 65536, 37):
-            tail = rng.choice([b"", b"\x00", b"\x01\x00\x02", rng.bytes(rng.range(0, 9)), b"\x00\x82", b"\x02\x00" + rng.bytes(4)])
+            tail = rng.choice([b"", b"\x00", b"\x01\x00\x02", rng.bytes(rng.range(0, 9)), b"\x00\x82", b"\x02\x00" + rng.bytes(4),
+                               b"\x05\xff" + rng.bytes(12), b"\x01\xff\x08\x00" + rng.bytes(3), b"\x00" * 5 + b"\x05\xff" + rng.bytes(14)])
             c.add("DECAP %s" % hx(w.to_bytes(2, "big") + tail))
             if rng.chance(0.1):
                 c.add("PEEK %s" % hx(w.to_bytes(2, "big") + tail))
@@ -875,6 +876,8 @@ def gen_c01(rng, t):
         nb = rng.range(1, 3)
         for k in range(nb):
             c.add("DPROV %d" % (max(maxpdu, pl) + 3 * k + rng.range(0, 2)))
+        if i % 30 == 11:
+            c.add("DPROV %d" % rng.choice([65536, 65537, 65536 + pl, 131072, 70000]))      # storages of 65536 bytes and more (taken first)
         pre = rng.below(4)
         if pre == 1 and lab != "B":
             c.add("ENCAP - 0 2048 %s 40 1" % lab, "DECAPN -", "DPROVBACK")     # same label: re-use next
@@ -1192,6 +1195,9 @@ def orc_c19(case, obs):
                 w, d = kv(nxt)
                 if w[:1] == ["ok"] and p.lt != 3 and d.get("label") not in (None, p.label):
                     bad.append("peek label %s, decap label %s" % (p.label, d.get("label")))
+                if w[:1] == ["err"] and len(w) > 1 and not w[1].startswith(("Memory", "InvalidLabel")) and p.lt != 3 and not ob.startswith("err"):
+                    # the receiver of these cases knows every extension used and has storage for every PDU
+                    bad.append("peek returns %s for a packet the encapsulator produced, decap refuses it (%s)" % (ob, nxt[:60]))
                 if w[:2] == ["err", "InvalidLabel"] and p.lt != 3 and not ob.startswith("err"):
                     bad.append("peek returns %s for a packet the encapsulator produced, decap refuses the label (%s)" % (ob, nxt[:60]))
             last = None
@@ -1602,6 +1608,31 @@ def fragment_x(pdu, fid, ptype, label, sizes, chain):
     return pkts
 
 
+
+def tiny_totals(rng, prefix, n):
+    """first fragments announcing a total length below protocol type + label (1 .. 1 + label length), no PDU byte anywhere in
+    the train, trailer = CRC of (announced total, type, label, nothing): nothing may be delivered"""
+    out = []
+    for i in range(n):
+        c = Case("%s_tiny%d" % (prefix, i))
+        lab = rng.choice([L6A, L3A, "B"])
+        ll = len(label_bytes(lab))
+        fid = rng.below(256)
+        total = rng.range(1, 1 + ll) if ll else 1
+        c.add("DNEW 2 16 simple", "DPROV 16", "DPROV 17")
+        c.add("DECAP %s" % hx(build_first(fid, total, 0x0800, lab, b"")))
+        if rng.chance(0.5):
+            c.add("DECAP %s" % hx(build_end(fid, b"", gse_crc(b"", 0x0800, total, label_bytes(lab)))))
+        else:
+            k = rng.range(1, 3)
+            data = rng.bytes(k)
+            c.add("DECAP %s" % hx(build_end(fid, data, gse_crc(data, 0x0800, total, label_bytes(lab)))))
+        c.add("DOBS")
+        c.meta["c03"] = {"pdu": "-", "burst": False, "ptype": 0x0800}
+        out.append(c)
+    return out
+
+
 def gen_c03(rng, t):
     out = []
     for i in range(700 * t):
@@ -1678,6 +1709,7 @@ def gen_c03(rng, t):
         c.meta["c03"] = {"pdu": hx(pdu), "burst": protected_only, "ptype": pt}
         out.append(c)
     out.extend(big_trains(rng, "c03"))
+    out.extend(tiny_totals(rng, "c03", 30 * t))
     return out
 
 
